@@ -514,7 +514,7 @@ impl G {
             // keep it representable: no lone backslash, not both bare quotes
             let s: String = { let mut t = String::new(); let cs: Vec<char> = s.chars().collect(); let mut i = 0;
                 while i < cs.len() { if cs[i] == '\\' { if i + 1 < cs.len() && matches!(cs[i + 1], '\'' | '"' | 'n' | '\\') { t.push(cs[i]); t.push(cs[i + 1]); i += 2; } else { i += 1; } } else { t.push(cs[i]); i += 1; } } t };
-            let s = if !lit_ok('"', &s) && !lit_ok('\'', &s) { s.replace('\'', "") } else { s };
+            let s = if !lit_ok('"', &s) && !lit_ok('\'', &s) { "both \\\" \\' escaped".to_string() } else { s };
             Literal(s)
         }
     }
